@@ -30,7 +30,8 @@ CONSTANTS
   Family,      \* "round" : rich contents, no faults; "fault": small contents + faults; "dist": configurations
   MaxFaults,   \* number of faults applied in sequence
   Rich,        \* TRUE: special atom also at the last non-zero position, all atoms in derivative slots
-  Emit         \* print replay cases
+  Emit,        \* print replay cases
+  WideClasses  \* long-line classes of the table round trips ("64K", "1M", "4M")
 
 VARIABLES obj, fmt, faults, doc,
           lay,         \* byte layout of a table document (the token structure is the same)
@@ -443,7 +444,48 @@ ScalarsRound(u) ==
   UNION {{Scal("real", a, 1, n, g, <<>>) : a \in {"zero", "half", "maxfinite"}, g \in [1..n -> DerivAtoms]} : n \in 0..2} \cup
   UNION {{Scal("real", a, 2, n, g, h) : a \in {"half", "subnormal"}, g \in [1..n -> {"zero", "one"}], h \in [1..n -> [1..n -> HessAtoms]]} : n \in 0..2}
 
+PlainAtoms == {"zero", "one", "minusTwo", "typeMaxInt", "typeMinInt"}
+AtomsOfObj(x) == CASE x.k = "scalar" -> {x.v}
+                   [] x.k \in {"vector", "matrix"} -> {x.c[q] : q \in 1..Len(x.c)}
+                   [] OTHER -> {}
+
+(* HISTORY: a sparse container may physically hold entries whose value is zero. *)
+(* They arise when an element is overwritten with zero, when an absent position *)
+(* is touched through At(i), when arithmetic cancels an entry (VsubV / MsubM)   *)
+(* or when an element is Reset(); the object is then written WITHOUT any        *)
+(* iteration in between.  A stored zero is not part of the denotation: Denote,  *)
+(* Encode and Carried ignore the field hist, the document must be that of the   *)
+(* same object without history.                                                 *)
+HistWays == {"overwrite", "touch", "cancel", "reset"}
+WithField(x, name, v) == [fl \in (DOMAIN x) \cup {name} |-> IF fl = name THEN v ELSE x[fl]]
+ZeroPos(x) == {q - 1 : q \in {q \in 1..Len(x.c) : x.c[q] = "zero"}}
+SparseHistory(u) ==
+  UNION {{WithField(x, "hist", [how |-> h, pos |-> p]) : h \in HistWays, p \in {MinOf(ZeroPos(x)), MaxOf(ZeroPos(x))}} :
+            x \in {x \in VectorsRound(u) \cup MatricesRound(u) :
+                      x.st = "sparse" /\ x.view = <<>> /\ ZeroPos(x) # {} /\ AtomsOfObj(x) \subseteq PlainAtoms}}
+
+(* LONG LINES: a table row may be arbitrarily long.  A wide object is a small    *)
+(* object whose columns (vector: elements) are repeated k times, Widen(x, k);    *)
+(* the driver chooses k so that every row of the file exceeds the size class     *)
+(* (64 KiB, 1 MiB, 4 MiB), the model checks k = 2.  Only dense tables have long  *)
+(* rows (sparse tables hold one entry per line); a dense vector is presented in  *)
+(* the layout OneLine (all elements in one line, which its reader accepts).      *)
+Widen(x, k) ==
+  IF x.k = "vector" THEN [x EXCEPT !.n = x.n * k, !.c = [q \in 1..(x.n * k) |-> x.c[((q-1) % x.n) + 1]]]
+  ELSE IF x.view = <<>>
+       THEN [x EXCEPT !.cols = x.cols * k,
+                      !.c = [q \in 1..(x.rows * x.cols * k) |-> x.c[((q-1) \div (x.cols * k)) * x.cols + ((q-1) % x.cols) + 1]]]
+       ELSE [x EXCEPT !.rows = x.rows * k,      \* transposed view: the parent grows in rows
+                      !.c = [q \in 1..(x.rows * k * x.cols) |-> x.c[((q-1) % (x.rows * x.cols)) + 1]]]
+WideObjects(u) ==
+  UNION {{WithField(x, "wide", w) : w \in WideClasses} :
+     x \in {Mat(cd[1], "none", "dense", rc[1], rc[2], Content(rc[1] * rc[2], {}, "one", -1), v) :
+               cd \in {<<"plain">>, <<"real">>}, rc \in {<<1, 4>>, <<2, 4>>}, v \in {<<>>}}
+        \cup {Mat(cd[1], "none", "dense", 4, 2, Content(8, {3}, "one", -1), <<TOp>>) : cd \in {<<"plain">>, <<"real">>}}
+        \cup {Vec(cd[1], "none", "dense", 4, Content(4, {}, "one", -1), <<>>) : cd \in {<<"plain">>, <<"real">>}}}
+
 RoundObjects(u) == ScalarsRound(u) \cup VectorsRound(u) \cup VectorViews(u) \cup MatricesRound(u) \cup MatricesViews(u)
+                     \cup SparseHistory(u) \cup WideObjects(u)
 
 (* small objects for the fault family: every document shape occurs *)
 FaultObjects(u) ==
@@ -461,7 +503,7 @@ DistObjects(u) == {[k |-> "dist", cls |-> "none", st |-> "none", cfg |-> c] : c 
 Objects == CASE Family = "round" -> RoundObjects(0)
              [] Family = "fault" -> FaultObjects(0)
              [] Family = "dist"  -> DistObjects(0)
-Formats(x) == IF x.k \in {"scalar", "dist"} THEN {"json"} ELSE {"json", "table"}
+Formats(x) == IF x.k \in {"scalar", "dist"} THEN {"json"} ELSE IF "wide" \in DOMAIN x THEN {"table"} ELSE {"json", "table"}
 
 (* ------------------------------------------------------------------- faults *)
 (* A fault names a place of the document: a field of the top-level object     *)
@@ -471,6 +513,16 @@ OtherTypes(nd) == {"str", "num", "arr", "null", "obj"} \ {IF nd.t = "int" THEN "
 Blank(t) == CASE t = "str" -> Str("x") [] t = "num" -> Num("one") [] t = "arr" -> Arr(<<>>)
               [] t = "null" -> Null [] t = "obj" -> Obj([Bogus |-> Num("one")])
 
+(* An entry of an INTEGER container at the bounds of its element type, written  *)
+(* as decimal integer, with a fraction ("128.0") or in exponent notation        *)
+(* ("1.28e2"): max and min must be read exactly or rejected, max+1 ("above")    *)
+(* and min-1 ("below") must be rejected - never wrap around.  The notation is   *)
+(* a matter of bytes; in the abstract document max/min are the type-bound atoms *)
+(* and above/below are a token that is no element value.                        *)
+RangeVals == {"max", "min", "above", "below"}
+Notations == {"dec", "float", "exp"}
+RangeTok(v) == IF v = "max" THEN Num("typeMaxInt") ELSE IF v = "min" THEN Num("typeMinInt") ELSE [t |-> "oor", w |-> v]
+
 JsonFaults(nd) ==
   IF nd.t = "obj" THEN
        {[f |-> "DropField", field |-> fl] : fl \in DOMAIN nd.f}
@@ -478,11 +530,15 @@ JsonFaults(nd) ==
   \cup {[f |-> "WrongType", field |-> fl, idx |-> 0, to |-> t] : <<fl, t>> \in {<<fl, t>> \in (DOMAIN nd.f) \X {"str", "arr", "null", "obj"} : nd.f[fl].t = "arr" /\ Len(nd.f[fl].v) > 0}}
   \cup {[f |-> "LenMismatch", field |-> fl, delta |-> d] : <<fl, d>> \in {<<fl, d>> \in (DOMAIN nd.f) \X {-1, 1} : nd.f[fl].t = "arr" /\ (d = 1 \/ Len(nd.f[fl].v) > 0)}}
   \cup {[f |-> "NegDim", field |-> fl] : fl \in (DOMAIN nd.f) \cap {"Rows", "Cols", "Length"}}
+  \cup UNION {{[f |-> "EntryRange", field |-> fl, idx |-> Len(nd.f[fl].v) - 1, val |-> v, notation |-> nt] : v \in RangeVals, nt \in Notations} :
+                 fl \in {fl \in (DOMAIN nd.f) \cap {"Values", "Value"} : nd.f[fl].t = "arr" /\ Len(nd.f[fl].v) > 0 /\ nd.f[fl].v[Len(nd.f[fl].v)].t = "num"}}
   \cup (IF {"Index", "Value"} \subseteq DOMAIN nd.f /\ nd.f.Index.t = "arr" /\ Len(nd.f.Index.v) > 0
         THEN {[f |-> "DupIndex"], [f |-> "IndexOutOfRange", how |-> "high"], [f |-> "IndexOutOfRange", how |-> "negative"], [f |-> "LengthTooSmall"]} ELSE {})
   \cup {[f |-> "Truncate"]}
   ELSE IF nd.t = "arr" THEN
        {[f |-> "WrongType", field |-> "", idx |-> -1, to |-> t] : t \in {"str", "num", "null", "obj"}}
+  \cup (IF Len(nd.v) > 0 /\ nd.v[Len(nd.v)].t = "num"
+        THEN {[f |-> "EntryRange", field |-> "", idx |-> Len(nd.v) - 1, val |-> v, notation |-> nt] : v \in RangeVals, nt \in Notations} ELSE {})
   \cup (IF Len(nd.v) > 0 THEN {[f |-> "WrongType", field |-> "", idx |-> 0, to |-> t] : t \in {"str", "arr", "null", "obj"}} ELSE {})
   \cup {[f |-> "Truncate"]}
   ELSE IF nd.t = "num" THEN
@@ -495,6 +551,11 @@ TableFaults(nd, x) ==
   \cup (IF Len(nd.l) > 0 THEN {[f |-> "DropLine", line |-> 0], [f |-> "DropLine", line |-> Len(nd.l) - 1]} ELSE {})
   \cup UNION {{[f |-> "DropToken", line |-> q-1], [f |-> "ExtraToken", line |-> q-1], [f |-> "NonNumeric", line |-> q-1, tok |-> 0]} :
                  q \in {q \in 1..Len(nd.l) : Len(nd.l[q]) > 0}}
+  \cup (IF x.cls = "plain" /\ Len(nd.l) > (IF x.st = "sparse" THEN 1 ELSE 0) /\ Len(nd.l[Len(nd.l)]) > 0
+           /\ nd.l[Len(nd.l)][Len(nd.l[Len(nd.l)])].t = "num"
+        THEN {[f |-> "EntryRange", line |-> Len(nd.l) - 1, tok |-> Len(nd.l[Len(nd.l)]) - 1, val |-> v, notation |-> nt] :
+                 v \in RangeVals, nt \in Notations}
+        ELSE {})
   \cup (IF x.st = "sparse" /\ Len(nd.l) > 0 /\ Len(nd.l[1]) > 0
         THEN {[f |-> "NegDim", field |-> "header"]} \cup
              (IF Len(nd.l) > 1 /\ Len(nd.l[2]) > 0 /\ Len(nd.l[Len(nd.l)]) > 0 THEN {[f |-> "DupIndex"], [f |-> "IndexOutOfRange", how |-> "high"], [f |-> "IndexOutOfRange", how |-> "negative"], [f |-> "LengthTooSmall"]} ELSE {})
@@ -517,7 +578,8 @@ CfgFaults(nd) ==
 FaultsOf(nd, x, fm) ==
   IF nd.t = "broken" THEN {}
   ELSE IF x.k = "dist" THEN CfgFaults(nd)
-  ELSE IF fm = "json" THEN JsonFaults(nd) ELSE TableFaults(nd, x)
+  ELSE IF fm = "json" THEN {ft \in JsonFaults(nd) : ft.f = "EntryRange" => (x.k # "scalar" /\ x.cls = "plain")}
+  ELSE TableFaults(nd, x)
 
 (* effect of a fault on the abstract document *)
 SetField(nd, fl, v) == Obj([y \in DOMAIN nd.f |-> IF y = fl THEN v ELSE nd.f[y]])
@@ -530,6 +592,8 @@ SizeOf(nd) == IF "Length" \in DOMAIN nd.f /\ nd.f.Length.t = "int" THEN nd.f.Len
               ELSE 1000
 ApplyJson(nd, ft) ==
   CASE ft.f = "Truncate" -> Broken
+    [] ft.f = "EntryRange" /\ ft.field = "" -> Arr([nd.v EXCEPT ![ft.idx + 1] = RangeTok(ft.val)])
+    [] ft.f = "EntryRange" /\ ft.field # "" -> SetField(nd, ft.field, Arr([nd.f[ft.field].v EXCEPT ![ft.idx + 1] = RangeTok(ft.val)]))
     [] ft.f = "DropField" -> Obj([y \in (DOMAIN nd.f) \ {ft.field} |-> nd.f[y]])
     [] ft.f = "WrongType" /\ ft.field = "" /\ ft.idx = -1 -> Blank(ft.to)
     [] ft.f = "WrongType" /\ ft.field = "" /\ ft.idx >= 0 -> Arr([nd.v EXCEPT ![ft.idx + 1] = Blank(ft.to)])
@@ -566,6 +630,7 @@ ApplyTable(nd, ft, x) ==
     [] ft.f = "DropToken" -> Tab([L EXCEPT ![ft.line + 1] = DropLast(@)])
     [] ft.f = "ExtraToken" -> Tab([L EXCEPT ![ft.line + 1] = Append(@, Num("one"))])
     [] ft.f = "NonNumeric" -> Tab([L EXCEPT ![ft.line + 1] = [@ EXCEPT ![ft.tok + 1] = TokStr]])
+    [] ft.f = "EntryRange" -> Tab([L EXCEPT ![ft.line + 1] = [@ EXCEPT ![ft.tok + 1] = RangeTok(ft.val)]])
     [] ft.f = "NegDim" -> Tab([L EXCEPT ![1] = [@ EXCEPT ![1] = IF @.t = "int" THEN IntN(Neg(@.i)) ELSE @]])
     [] ft.f = "DupIndex" -> Tab(Append(L, [L[2] EXCEPT ![Len(L[2])] = Num("one")]))
     [] ft.f = "IndexOutOfRange" ->
@@ -602,8 +667,12 @@ ApplyFault(nd, ft, x, fm) ==
 (*   CRLF, TrailingBlanks  (not documented by the readers, but they fall out  *)
 (*   of strings.Fields) -> roundtrip-equal or an error, never another object  *)
 TableLayouts == {"canonical", "NoFinalNewline", "CRLF", "TrailingBlanks"}
+(* OneLine (dense vectors of the long-line class only): all elements in a single line; the reader takes every token of a line *)
+Special(x) == "wide" \in DOMAIN x \/ "hist" \in DOMAIN x
 LayoutsOf(x, f) ==
-  IF f = "table" /\ x.k \in {"vector", "matrix"} /\ x.view = <<>> /\ (Family = "fault" \/ (x.cls = "plain" /\ x.dv = "none"))
+  IF "wide" \in DOMAIN x THEN (IF x.k = "vector" THEN {"OneLine"} ELSE {"canonical"})
+  ELSE IF "hist" \in DOMAIN x THEN {"canonical"}
+  ELSE IF f = "table" /\ x.k \in {"vector", "matrix"} /\ x.view = <<>> /\ (Family = "fault" \/ (x.cls = "plain" /\ x.dv = "none"))
   THEN (IF Encode(x, f).l = <<>> THEN TableLayouts \ {"NoFinalNewline"} ELSE TableLayouts)   \* a file without lines has no last line
   ELSE {"canonical"}
 
@@ -618,10 +687,6 @@ LayoutsOf(x, f) ==
 (* data, real elements are variables) and reads into it.                      *)
 Rcv(pre, r, c, v) == [pre |-> pre, rows |-> r, cols |-> c, view |-> v]
 FreshRcv == Rcv("fresh", 0, 0, <<>>)
-PlainAtoms == {"zero", "one", "minusTwo", "typeMaxInt", "typeMinInt"}
-AtomsOfObj(x) == CASE x.k = "scalar" -> {x.v}
-                   [] x.k \in {"vector", "matrix"} -> {x.c[q] : q \in 1..Len(x.c)}
-                   [] OTHER -> {}
 MaxZ(a) == IF a > 0 THEN a ELSE 0
 UsedReceivers(x) ==
   LET d == Denote(x) IN
@@ -638,7 +703,8 @@ UsedReceivers(x) ==
           Rcv("slicedT", d.cols + 2, d.rows + 2, <<SOp(1, d.cols + 1, 1, d.rows + 1), TOp>>)}
          \cup (IF d.rows >= 1 \/ d.cols >= 1 THEN {Rcv("smaller", MaxZ(d.rows - 1), MaxZ(d.cols - 1), <<>>)} ELSE {})
 ReceiversOf(x, f) ==
-  IF x.k \in {"scalar", "dist"} \/ Family = "fault"
+  IF "wide" \in DOMAIN x \/ "hist" \in DOMAIN x THEN {FreshRcv}
+  ELSE IF x.k \in {"scalar", "dist"} \/ Family = "fault"
      \/ (x.k \in {"vector", "matrix"} /\ x.view = <<>> /\ AtomsOfObj(x) \subseteq PlainAtoms)
   THEN {FreshRcv} \cup UsedReceivers(x) ELSE {FreshRcv}
 
@@ -678,6 +744,10 @@ Init == /\ obj \in Objects
         /\ lay \in LayoutsOf(obj, fmt)
         /\ rcv \in (IF lay = "canonical" THEN ReceiversOf(obj, fmt) ELSE {FreshRcv})
 
+(* the contract is independent of the width *)
+WideRoundTrip == (faults = <<>> /\ "wide" \in DOMAIN obj) =>
+   DecodeAs(Encode(Widen(obj, 2), fmt), obj.k, obj.cls, obj.st, fmt) = Carried(Widen(obj, 2), fmt)
+
 Fault == /\ Len(faults) < MaxFaults
          /\ lay = "canonical"
          /\ rcv.pre = "fresh"
@@ -701,11 +771,15 @@ TypesOf(x) ==
                [] x.cls = "real"  -> RealTypes
   IN {ty \in all : \A a \in AtomsOf(x) : AtomOK(ty, a)}
 
+RangeFault == Len(faults) = 1 /\ faults[1].f = "EntryRange"
 Case ==
-  [obj |-> obj, fmt |-> fmt, faults |-> faults, types |-> TypesOf(obj), layout |-> lay, rcv |-> rcv,
-   expect |-> IF faults # <<>> THEN "error-or-wellformed"
-              ELSE IF lay \in {"CRLF", "TrailingBlanks"} THEN "roundtrip-equal-or-error" ELSE "roundtrip-equal",
-   exp |-> IF faults # <<>> THEN [k |-> "none"] ELSE Carried(obj, fmt),
+  [obj |-> obj, fmt |-> fmt, faults |-> faults, layout |-> lay, rcv |-> rcv,
+   types |-> IF \E q \in 1..Len(faults) : faults[q].f = "EntryRange" THEN TypesOf(obj) \cap IntTypes ELSE TypesOf(obj),
+   expect |-> IF RangeFault THEN (IF faults[1].val \in {"above", "below"} THEN "error" ELSE "exact-or-error")
+              ELSE IF faults # <<>> THEN "error-or-wellformed"
+              ELSE IF lay \in {"CRLF", "TrailingBlanks", "OneLine"} THEN "roundtrip-equal-or-error" ELSE "roundtrip-equal",
+   exp |-> IF RangeFault /\ ~IsErr(Decoded) THEN Decoded
+           ELSE IF faults # <<>> THEN [k |-> "none"] ELSE Carried(obj, fmt),
    dev |-> IF faults = <<>> /\ TableLosesDims(obj, fmt) THEN "table-dims" ELSE "none",
    model |-> IF IsErr(Decoded) THEN "error" ELSE "object"]
 
